@@ -144,6 +144,17 @@ CHECKS = {
              "must write the first buildable alternative at the position (Pointer: at the target, position restored; Peek: nothing).",
         note="the members themselves are trusted (their own correctness is C03's business)",
         design="§3 C09"),
+    "C12": dict(
+        technique="bounded-exhaustive differential execution of both sides of every documented equivalence over all parameter instantiations x byte strings x values",
+        text="Every <--> law stated in the docstrings and docs and every documented operator spelling is instantiated for all parameter "
+             "combinations (integer widths 1..8 quick / 1..16 thorough x signed x swapped, Int24 and fixed-width aliases, float names, "
+             "Bit/Nibble/Octet, Optional/If/Padding/PrefixedArray/BitStruct/AlignedStruct macros over six kinds of sub-construct, "
+             "Enum/FlagsEnum from IntEnum/IntFlag/Enum classes, Hex/HexDump over integers, bytes, RawCopy and structs, x[n], a+b, a>>b, "
+             "name/x, x*doc). Both sides parse every byte string of the relevant length +-1 (all 256^n for n<=2, the 6-symbol alphabet "
+             "or boundary patterns above) and build every value of an alphabet including out-of-range and non-integer values; both must "
+             "accept with equal value / identical bytes or both reject, and sizeof must agree.",
+        note="pure differential: no reference model; display subclasses compared by value",
+        design="§3 C12"),
 }
 
 PENDING_REASON = "check not built yet in this round (see DESIGN.md §7 build order); it will be decided by the same bounded-exhaustive engine"
